@@ -230,7 +230,10 @@ def plan(tier, seed):
         for (vn, kinds) in variants(tier):
             if tier == "quick" and u != "sparse" and vn not in ("none", "all-kinds"):
                 continue
-            shards.append({"universe": u, "variant": vn, "kinds": kinds})
+            deep = tier == "thorough" and u == "sparse" and vn in ("none", "all-kinds")
+            parts = 8 if deep else 1
+            for pi in range(parts):
+                shards.append({"universe": u, "variant": vn, "kinds": kinds, "deep": deep, "part": [pi, parts]})
     return {"shards": shards}
 
 
@@ -248,10 +251,14 @@ def run_shard(sh):
     fs = W.finders()
     S = []
     seen = set()
-    for s in searches(ref, W, sh["tier"]):
+    import zlib
+    pi, pn = sh.get("part", [0, 1])
+    stier = sh["tier"] if (sh["tier"] != "thorough" or sh.get("deep")) else "quick"    # k=2 only on the deep shards
+    for s in searches(ref, W, stier):
         if s not in seen:
             seen.add(s)
-            S.append(s)
+            if zlib.crc32(s.encode()) % pn == pi:
+                S.append(s)
     base = {}
     from mc import env
     for s in S:
@@ -306,4 +313,4 @@ def replay_case(kind, case):
 
 
 def coverage(m, tier, seed):
-    return {"bounds": {"k": 2 if tier == "thorough" else 1}, "exhaustive": True, "worlds": m["extra"][:12]}
+    return {"bounds": {"k": "2 on the sparse universe (junk none / all kinds), 1 elsewhere" if tier == "thorough" else 1}, "exhaustive": True, "worlds": m["extra"][:12]}
